@@ -71,6 +71,7 @@ type Walker struct {
 	// hooks
 	CallName func(callee *ssa.Function, name string) (string, bool, bool)
 	OnRecv   func(w *Walker, ch *Term, t types.Type, id int) (*Term, bool)
+	Nullable func(t *Term) bool // symbolic pointers that may be nil unless the path has established otherwise
 	OnCall func(w *Walker, name string, args []*Term, call *ssa.CallCommon, instr ssa.Instruction) (*Term, bool)
 
 	// per path
@@ -420,6 +421,11 @@ func (w *Walker) load(addr *Term, instr ssa.Instruction, fn *ssa.Function, depth
 		if addr.IsNilConst() {
 			w.abort("panic", "nil dereference at "+w.P.Pos(instr.Pos()))
 		}
+		if w.Nullable != nil && w.Nullable(addr) {
+			if isnil, ok := w.state.Bools["isnil("+addr.String()+")"]; !ok || isnil {
+				w.event(Event{Kind: "nilderef", Name: addr.String(), Args: []*Term{addr}, Pos: instr.Pos(), Instr: instr, Fn: fn, Depth: depth})
+			}
+		}
 		c := w.symCell(addr)
 		return c.Val
 	}
@@ -504,6 +510,11 @@ func calleeName(fn *ssa.Function) string {
 		pk = shortPkg(base.Object().Pkg())
 	}
 	return pk + "." + base.Name() + targs
+}
+
+var stdGlobalBytes = map[string][]byte{
+	"net.IPv4bcast": {0, 0, 0, 0, 0, 0, 0, 0, 0, 0, 0xff, 0xff, 255, 255, 255, 255},
+	"net.IPv4zero":  {0, 0, 0, 0, 0, 0, 0, 0, 0, 0, 0xff, 0xff, 0, 0, 0, 0},
 }
 
 var purePkgs = map[string]bool{"time": true, "netip": true, "strconv": true, "strings": true, "fmt": true, "regexp": true,
@@ -676,6 +687,18 @@ func (w *Walker) val(fr *frame, v ssa.Value) *Term {
 		c := w.symCell(g)
 		if c.Val.Op == "deref" {
 			c.Val = &Term{Op: "global", Name: name, Typ: x.Type().Underlying().(*types.Pointer).Elem()}
+			if img, ok := stdGlobalBytes[name]; ok {
+				// documented constant values of the standard library (trusted base): net.IPv4bcast etc. are the
+				// 16-byte IPv4-in-IPv6 forms
+				els := make([]*Term, len(img))
+				for i, b := range img {
+					els[i] = mkInt(int64(b), types.Typ[types.Uint8])
+				}
+				at := types.NewArray(types.Typ[types.Uint8], int64(len(img)))
+				cell := w.newCell(name, at, true)
+				cell.Val = &Term{Op: "slicev", Args: els, Typ: at}
+				c.Val = &Term{Op: "sref", Cell: cell, Typ: c.Val.Typ, Args: []*Term{mkInt(0, types.Typ[types.Int]), mkInt(int64(len(img)), types.Typ[types.Int])}}
+			}
 		}
 		return &Term{Op: "ptr", Cell: c, Typ: x.Type()}
 	case *ssa.Function:
@@ -1205,6 +1228,9 @@ func (w *Walker) call(fr *frame, c *ssa.CallCommon, in ssa.Instruction, rt types
 		}
 		return &Term{Op: "tuple", Args: res, Typ: rt}
 	}
+	if t := w.stdModel(name, args, rt); t != nil {
+		return t
+	}
 	t := &Term{Op: "call", Name: name, Args: args, Typ: rt, Pos: in.Pos()}
 	pure := isPureName(name)
 	if w.CallName != nil {
@@ -1223,6 +1249,67 @@ func (w *Walker) call(fr *frame, c *ssa.CallCommon, in ssa.Instruction, rt types
 		}
 	}
 	return t
+}
+
+// stdModel constant-folds a few documented standard-library functions on fully known arguments.
+func (w *Walker) stdModel(name string, args []*Term, rt types.Type) *Term {
+	constBytes := func(t *Term) ([]int64, bool) {
+		if t.Op != "sref" {
+			return nil, false
+		}
+		var out []int64
+		for _, e := range srefElems(t) {
+			v, ok := e.Int64()
+			if !ok {
+				return nil, false
+			}
+			out = append(out, v)
+		}
+		return out, true
+	}
+	mk := func(bs []int64) *Term {
+		els := make([]*Term, len(bs))
+		for i, b := range bs {
+			els[i] = mkInt(b, types.Typ[types.Uint8])
+		}
+		at := types.NewArray(types.Typ[types.Uint8], int64(len(bs)))
+		cell := w.newCell("std", at, true)
+		cell.Val = &Term{Op: "slicev", Args: els, Typ: at}
+		return &Term{Op: "sref", Cell: cell, Typ: rt, Args: []*Term{mkInt(0, types.Typ[types.Int]), mkInt(int64(len(bs)), types.Typ[types.Int])}}
+	}
+	switch name {
+	case "(net.IP).To4":
+		if bs, ok := constBytes(args[0]); ok {
+			if len(bs) == 4 {
+				return mk(bs)
+			}
+			if len(bs) == 16 {
+				pre := true
+				for i := 0; i < 10; i++ {
+					if bs[i] != 0 {
+						pre = false
+					}
+				}
+				if pre && bs[10] == 0xff && bs[11] == 0xff {
+					return mk(bs[12:16])
+				}
+				return mkNil(rt)
+			}
+		}
+	case "net.IPv4":
+		if len(args) == 4 {
+			bs := []int64{0, 0, 0, 0, 0, 0, 0, 0, 0, 0, 0xff, 0xff}
+			for _, a := range args {
+				v, ok := a.Int64()
+				if !ok {
+					return nil
+				}
+				bs = append(bs, v)
+			}
+			return mk(bs)
+		}
+	}
+	return nil
 }
 
 func (w *Walker) havoc(a *Term, by string) {
